@@ -84,6 +84,11 @@ def cases(tier, rng):
     for c, k, n, procs in [("tcp", 4, 600000, 1), ("tcp", 4, 600000, 2)]:      # ... and in the copy loops' logging variant
         line = "c01par %s %d %d %d debug" % (c, k, n, procs)
         cs.append({"line": line, "key": line, "model": False, "tags": {"carrier": c, "n": n, "dir": "parallel", "variant": "debug"}})
+    # a transfer in two halves while ANOTHER application asks for a channel the server does not offer, or another connection's service fails
+    # late: the second half arrives like the first (what happens to a sibling is not a reason to lose this connection's octets)
+    for sc in ("other-refused", "other-fails-late"):
+        line = "c02 tcp 3 %s" % sc
+        cs.append({"line": line, "key": line, "model": False, "tags": {"carrier": "tcp", "n": 0, "dir": "sibling:" + sc}})
     # run on the implementation only: a physical session older than the handshake's time limit (1 s here) when the connection is
     # opened, and the copy loops' logging variant (SOCKETACE_PIPE_DEBUG=1): multi-block transfers with further data after the first block
     cs += wire_cases(tier, rng)
@@ -401,6 +406,10 @@ def oracle(case, impl):
             if got is None or t["names"][got] != rq:
                 out.append(("bytes-to-wrong-target", "a connection for channel %r was %s" % (rq, "refused" if got is None else "connected to the target of channel %r" % t["names"][got])))
         return out
+    if t["dir"].startswith("sibling:"):
+        if "first-half" in p or "second-half" in p:
+            return [("bytes-lost;carrier=tcp;" + t["dir"][8:], "a transfer did not arrive complete after a sibling connection was refused or failed: " + impl[:150])]
+        return []
     if t["dir"] == "parallel":
         out = []
         q = impl.split(" c ")
